@@ -172,6 +172,34 @@ pub fn sym(args: &[String]) {
             }
         }
     }
+    // ---- slow start: 0.01 |y0| / |f0| exceeds the span, so hinit's clamp of its first guess decides where the probe of the
+    // second-derivative estimate is taken; the right-hand side depends on time, so the probe point matters
+    {
+        let mut k = 0;
+        for method in [Method::RK23, Method::DOPRI5, Method::DOP853, Method::BDF] {
+            for (x0, xend) in [(0.0, 1.0), (1.0, 0.0), (0.3, 1.1), (0.0, -0.8)] {
+                let run = |reflect: bool| {
+                    let p = SlowT { reflect };
+                    let (a, b) = if reflect { (-x0, -xend) } else { (x0, xend) };
+                    catch_unwind(AssertUnwindSafe(|| solve_ivp(&p, a, b, &[1.0, 1.0], Options::builder().method(method).rtol(1e-6).atol(1e-9).build())))
+                };
+                let mut why = String::new();
+                match (run(false), run(true)) {
+                    (Ok(Ok(r0)), Ok(Ok(r))) => {
+                        let tm: Vec<f64> = r.t.iter().map(|t| -t).collect();
+                        if r.status != r0.status { why = format!("reflected run ends {:?}, original {:?}", r.status, r0.status); }
+                        // (times are compared with IEEE equality: mirroring turns a final time 0.0 into -0.0)
+                        else if tm.len() != r0.t.len() || tm.iter().zip(r0.t.iter()).any(|(u, v)| u != v) { why = format!("reflected run has different step points ({} vs {} samples; second point {:?} vs {:?})", r.t.len(), r0.t.len(), tm.get(1), r0.t.get(1)); }
+                        else if r.y.iter().zip(r0.y.iter()).any(|(a, b)| !bits_eq(a, b)) { why = "reflected run has different states at the mirrored times".into(); }
+                        else if (r.nfev, r.naccpt, r.nrejct) != (r0.nfev, r0.naccpt, r0.nrejct) { why = "reflected run has different counters".into(); }
+                    }
+                    _ => why = "run fails".into(),
+                }
+                row("sy", 500000 + k, "reflect-slow-start", Kind::Slow, method, "c13-reflect", &why, &format!("\"x0\":{},\"xend\":{},", x0, xend));
+                k += 1;
+            }
+        }
+    }
 }
 
 // ------------------------------------------------------------------------------------------------------------ C15
@@ -637,5 +665,21 @@ impl IVP for Relax {
                 for r in 0..n { j[(r, c)] = (f1[r] - f0[r]) / h; }
             }
         }
+    }
+}
+
+/// y0' = 0.002 y0 + x^2 y1,  y1' = -0.003 y1  (slow start, time-dependent); `reflect`: z'(s) = -f(-s, z)
+struct SlowT { reflect: bool }
+impl IVP for SlowT {
+    fn ode(&self, x: f64, y: &[f64], d: &mut [f64]) {
+        let t = if self.reflect { -x } else { x };
+        d[0] = 0.002 * y[0] + t * t * y[1];
+        d[1] = -0.003 * y[1];
+        if self.reflect { d[0] = -d[0]; d[1] = -d[1]; }
+    }
+    fn jac(&self, x: f64, _y: &[f64], j: &mut Matrix) {
+        let t = if self.reflect { -x } else { x };
+        let s = if self.reflect { -1.0 } else { 1.0 };
+        j[(0, 0)] = s * 0.002; j[(0, 1)] = s * (t * t); j[(1, 0)] = 0.0; j[(1, 1)] = s * -0.003;
     }
 }
